@@ -149,10 +149,20 @@ def seq_worker(case):
                 L += ["fopen 1 t.zck rw target", "create 1", "init_read 1 1"]
             else:
                 L += ["fput 1 s%d.bin" % vi]
+            if vi == 0 and case.get("late_hint") is not None:
+                # a header-length expectation set AFTER the header was read is checked against nothing; it must not move the requests either
+                L += ["iopt 1 3 %d" % case["late_hint"], "clear_error 1"]
             L += ["fv 1", "reset_failed 1", "flags 1"]
             for lim in case["limits"][vi]:
                 L += ["range 2 1 %d" % lim, "range_free 2"]
                 lims.append(lim)
+            if vi == 0 and case.get("copy_src"):
+                # local reuse in between: some chunks become valid, some fail (damaged in the source) and are reset to missing, some stay missing
+                files["src.zck"] = core.unb64(case["copy_src"])
+                L += ["fopen 3 src.zck r source", "create 3", "init_read 3 3", "copy 3 1", "flags 1", "reset_failed 1", "flags 1"]
+                for lim in case["limits"][vi]:
+                    L += ["range 2 1 %d" % lim, "range_free 2"]
+                    lims.append(lim)
         rd = core.run_zh(case["zh"], cdir, "\n".join(L) + "\n", files, name="seq")
         if rd.timed_out and not rd.cpu_exceeded:
             return core.verdict(cid, "inconclusive", detail="watchdog", case=case)
@@ -346,7 +356,24 @@ class C10(core.Check):
                 if p.chunks[0]["len"] == 0:
                     v[0] = 1
                 vecs.append(v)
-            out.append(dict(name="seq%d" % i, data=core.b64(data), vectors=vecs, limits=[r.sample(LIMITS, 3) for _ in vecs], tag="multi-step", zh=zh, seed=self.seed, seq=True))
+            extra = {}
+            if i % 3 == 1:
+                extra["late_hint"] = p.header_len + r.choice([-1, 1, 100, -p.header_len, 7])
+            if i % 3 == 2:
+                # a source that shares every other chunk with the target; one or two of the shared chunks damaged in the source
+                pieces = [data[p.header_len + c["start"]:p.header_len + c["start"] + c["comp_len"]] for c in p.chunks[1:]]
+                keepi = [k for k in range(len(pieces)) if k % 2 == 0 or r.random() < 0.3]
+                dsz = p.chunks[0]["comp_len"]
+                src = zckref.make_file([pieces[k] for k in keepi] + [b"only-in-source"], chunk_hash_type=p.chunk_hash_type,
+                                       dict_bytes=data[p.header_len:p.header_len + dsz] if dsz else b"")
+                ps = zckref.parse(src)
+                sb = bytearray(src)
+                for c in r.sample(ps.chunks[1:-1], min(len(ps.chunks) - 2, r.choice([1, 2]))):
+                    if c["comp_len"]:
+                        sb[ps.header_len + c["start"] + r.randrange(c["comp_len"])] ^= 0x21
+                extra["copy_src"] = core.b64(bytes(sb))
+                vecs[0] = [1 if (k == 0 and p.chunks[0]["len"] == 0) else 0 for k in range(len(p.chunks))]   # start from an empty target
+            out.append(dict(name="seq%d" % i, data=core.b64(data), vectors=vecs, limits=[r.sample(LIMITS, 3) for _ in vecs], tag="multi-step", zh=zh, seed=self.seed, seq=True, **extra))
         # --- medium random
         for i in range(3 if self.quick else 20):
             n = r.choice([30, 100, 300])
